@@ -12,7 +12,7 @@ LEVEL = 'exploration'
 RULE = ('operator x monitor-kind matrix: every operator alone and nested under/above every other operator (<=2 operators, unbounded and [0,1] variants), '
         'every arithmetic operator in a predicate, x {discrete offline, discrete online, discrete online pastified, dense offline, dense online, dense online '
         'pastified} x data shapes {1 sample, 3 samples} x {plain, a declared variable z that the formula does not use (with and without data), a supplied '
-        'variable u that is not declared, variables listed in reverse order}; supported combinations must return normally; unsupported ones (unbounded '
+        'variable u that is not declared, variables listed in reverse order, an object that held and evaluated another specification before and was given the text with spec.spec = ...; parse() again}; supported combinations must return normally; unsupported ones (unbounded '
         'future online, prev/next/s_prev/s_next/rise/fall in dense time, until in the dense online monitor) must raise RTAMTException at parse(), '
         'pastify() or the first evaluation - never return a value, never raise another exception type; non-trivial = unsupported combination, or a '
         'supported one with a non-plain data shape')
@@ -55,7 +55,7 @@ def shards(tier):
 
 
 PLANS = (('dt_off', False), ('dt_on', False), ('dt_on', True), ('ct_off', False), ('ct_on', False), ('ct_on', True))
-SHAPES = ('plain', 'unused_declared_with_data', 'unused_declared_no_data', 'undeclared_supplied', 'reversed', 'reevaluate_shorter', 'unused_subspec')
+SHAPES = ('plain', 'unused_declared_with_data', 'unused_declared_no_data', 'undeclared_supplied', 'reversed', 'reevaluate_shorter', 'unused_subspec', 'reparsed')
 
 
 def supported(f, kind, pastify):
@@ -92,13 +92,35 @@ def run_case(case):
     if shape == 'unused_subspec':
         # a named sub-formula that the final formula never refers to (legal, e.g. kept for get_value)
         subs = ('q9 = (%s >= 0);' % (vs[0] if vs else 'x'), 'q8 = once[0,1] (%s <= 1);' % (vs[-1] if vs else 'x'))
-    k, spec = impl.outcome(impl.build, kind, case['spec'], decl or ['x'], pastify=False, subspecs=subs)
-    if k != 'ok':
-        return k, spec, 'parse'
+    if shape == 'reparsed':
+        # the object held ANOTHER specification before (one whose data domain the samples below leave: sqrt of a negative number), was used
+        # once with it, and is then given the text under test and parsed again: from then on only the new text counts
+        v0 = vs[0] if vs else 'x'
+        k, spec = impl.outcome(impl.build, kind, 'out = (once[0,1] (%s >= 0)) and (sqrt(%s - 100) >= 0)' % (v0, v0), decl or ['x'], pastify=False)
+        if k != 'ok':
+            return k, spec, 'parse of the earlier text'
+        if kind.endswith('off'):
+            first = {v: [1.0, 2.0] for v in (decl or ['x'])}
+            impl.outcome(impl.dt_evaluate if kind == 'dt_off' else impl.ct_evaluate, spec, first if kind == 'dt_off' else kinds.grid_signal(first))
+        else:
+            first = {v: 1.0 for v in (decl or ['x'])}
+            impl.outcome(impl.dt_update, spec, 0, first) if kind == 'dt_on' else impl.outcome(impl.ct_update, spec, {v: [(0.0, 1.0)] for v in first})
+        spec.spec = case['spec']
+        k, r = impl.outcome(spec.parse)
+        if k != 'ok':
+            return k, r, 'parse'
+    else:
+        k, spec = impl.outcome(impl.build, kind, case['spec'], decl or ['x'], pastify=False, subspecs=subs)
+        if k != 'ok':
+            return k, spec, 'parse'
     if pastify:
         k, r = impl.outcome(spec.pastify)
         if k != 'ok':
             return k, r, 'pastify'
+    if shape == 'reparsed' and kind.endswith('on'):
+        k, r = impl.outcome(spec.reset)
+        if k != 'ok':
+            return k, r, 'update 1'
     vals = (0.5, 2.0, 4.0) if positive_only(f) else (-1.0, 2.0, 0.0)
     data_vars = list(vs)
     if shape == 'unused_declared_with_data':
